@@ -597,7 +597,7 @@ def c14_transport(ctx, res):
     for si in range(n_scripts):
         k = rnd.randrange(1, 7)
         cmds = [rnd.choice(pool) for _ in range(k)]
-        cmds.append(rnd.choice(["exit", "quit", "q", "continue"]))
+        cmds.append(rnd.choice(["exit", "quit", "q", "continue", "x", "r", "s", "c", "bl", "registers", "p r0"]))
         scripts.append(cmds)
         variants = []
         for cut in range(0, len(cmds) + 1):
@@ -609,14 +609,26 @@ def c14_transport(ctx, res):
         if not ctx.thorough():
             rnd.shuffle(variants)
             variants = variants[:8] + [(len(cmds), ";", ";"), (0, "\n", "\n")]
+        # both separators mixed inside the --command argument and inside stdin
+        variants.append((len(cmds) // 2, "mix", "mix"))
+        variants.append((len(cmds), "mix", "mix"))
         for v in variants:
             jobs.append((si, v))
 
     def one(job):
         si, (cut, sa, sb) = job
         cmds = scripts[si]
-        arg = sa.join(cmds[:cut])
-        stdin = sb.join(cmds[cut:])
+        def join(parts, sep, salt):
+            if sep != "mix":
+                return sep.join(parts)
+            out = ""
+            for k, part in enumerate(parts):
+                if k:
+                    out += ";" if (salt + k * 7) % 3 == 0 else "\n"
+                out += part
+            return out
+        arg = join(cmds[:cut], sa, si)
+        stdin = join(cmds[cut:], sb, si + 1)
         args = ["debug", "t.asm", "--minimal"]
         if cut > 0:
             args += ["--command", arg]
@@ -706,7 +718,9 @@ def c09_cli(ctx, res, limit):
     import random
     rnd = random.Random(ctx.seed * 31 + 9)
     cp = corpus(ctx)
-    entries = [e for e in cp["structured"] if not e["input"] and "input" not in e["features"]][:limit]
+    no_input = [e for e in cp["structured"] if not e["input"] and "input" not in e["features"]][:limit]
+    with_input = [e for e in cp["structured"] if e["input"] and e["input_taken"] > 0][:max(6, limit // 4)]
+    entries = no_input + with_input
     d = _dir(ctx, "c09")
     pool = ["step", "s", "si 3", "step into 10", "so", "continue", "c", "registers", "print r1", "print ^", "assembly",
             "break list", "echo x", "help", "break add ^2", "break add x{o1:04x}", "break remove x{o1:04x}", "p x{o0:04x}",
@@ -718,27 +732,35 @@ def c09_cli(ctx, res, limit):
         _write(os.path.join(d, name), e["source"])
         o0 = e["image"][0]
         cmds = [rnd.choice(pool).format(o0=o0, o1=(o0 + rnd.randrange(0, max(1, len(e["image"]) - 1))) & 0xFFFF) for _ in range(rnd.randrange(0, 9))]
-        if rnd.random() < 0.5:
-            cmds.append("quit")
+        reads_input = bool(e["input"])
+        if reads_input:
+            # stdin carries the program's input, so the script must detach explicitly
+            # (no trailing delimiter after the last command)
+            cmds = [c for c in cmds if not c.startswith(("c", "s"))] + [rnd.choice(["quit", "q", "Q"])]
+        elif rnd.random() < 0.5:
+            cmds.append(rnd.choice(["quit", "q"]))
         script = ";".join(cmds)
-        plain = lace(ctx, ["run", name, "--minimal"] + feat(e), stdin=b"", cwd=d, timeout=30)
+        stdin = bytes(e["input"])
+        plain = lace(ctx, ["run", name, "--minimal"] + feat(e), stdin=stdin, cwd=d, timeout=30)
         args = ["debug", name, "--minimal"] + feat(e)
         if script:
             args += ["--command", script]
-        dbg = lace(ctx, args, stdin=b"", cwd=d, timeout=30)
+        dbg = lace(ctx, args, stdin=stdin, cwd=d, timeout=30)
         return ix, script, plain, dbg
     for ix, script, plain, dbg in pmap(one, range(len(entries))):
         e = entries[ix]
         res.evaluations += 1
         res.cls("l2:debug_vs_run")
-        detail = {"source": e["source"][-800:], "script": script, "plain": plain.brief(), "debugged": dbg.brief()}
+        if e["input"]:
+            res.cls("l2:debug_vs_run_with_program_input")
+        detail = {"source": e["source"][-800:], "script": script, "stdin": e["input"], "plain": plain.brief(), "debugged": dbg.brief()}
         if dbg.rc is None or dbg.crashed:
             res.violate("C09/cli/crash", "`lace debug` crashed or hung (exit %s) where `lace run` exits %s" % (dbg.rc, plain.rc), detail)
         elif dbg.rc != plain.rc:
             res.violate("C09/cli/exit-status", "exit status %s under the debugger, %s without" % (dbg.rc, plain.rc), detail)
         elif dbg.out != plain.out:
             res.violate("C09/cli/stdout", "program output differs between `lace debug` and `lace run`", detail)
-    res.require(["l2:debug_vs_run"], "L2")
+    res.require(["l2:debug_vs_run", "l2:debug_vs_run_with_program_input"], "L2")
 
 
 # ------------------------------------------------------------------ C05 (L2 sample)
